@@ -392,16 +392,17 @@ startConn:
 	c.mu.Lock()
 	c.conn = nil
 
-	if err == nil {
-		if c.state.sts.beginUpgrade {
-			c.state.sts.beginUpgrade = false
-			c.mu.Unlock()
-			goto startConn
-		}
+	if c.state.sts.beginUpgrade {
+		// The connection was given up on purpose to upgrade it. Whatever its
+		// teardown reported (the server may hang up at the same moment) does
+		// not matter: reconnect securely.
+		c.state.sts.beginUpgrade = false
+		c.mu.Unlock()
+		goto startConn
+	}
 
-		if c.state.sts.enabled() {
-			c.state.sts.persistenceReceived = time.Now()
-		}
+	if err == nil && c.state.sts.enabled() {
+		c.state.sts.persistenceReceived = time.Now()
 	}
 	c.mu.Unlock()
 
